@@ -7,6 +7,7 @@ import (
 	"errors"
 	"net"
 	"os"
+	"strings"
 	"sync"
 	"sync/atomic"
 	"time"
@@ -27,6 +28,54 @@ func ParseAddr(s string) (net.Addr, error) {
 		return nil, errors.New("empty switch address")
 	}
 	return Addr(s), nil
+}
+
+// resolver maps the spellings of an address to its canonical form, the way a
+// name service does: an address has ONE canonical spelling (the one it was
+// registered under: NewEndpoint / Serve) and any number of aliases - host names
+// registered with Alias, the same name with a trailing dot, and the same name
+// in another letter case. Dialing an alias reaches the canonical address, and
+// the net.Addr a connection reports (net.Addr.String()) is always the canonical
+// spelling - so the string a caller dialed and the remote address string of the
+// resulting session differ.
+type resolver struct {
+	names   map[string]bool   // canonical spellings
+	aliases map[string]string // registered host names -> canonical
+}
+
+func newResolver() resolver {
+	return resolver{names: map[string]bool{}, aliases: map[string]string{}}
+}
+
+// resolve returns the canonical spelling of s (s itself when nothing matches).
+func (r *resolver) resolve(s string) string {
+	if r.names[s] {
+		return s
+	}
+	if c, ok := r.aliases[s]; ok {
+		return c
+	}
+	t := strings.TrimRight(s, ".")
+	if t == "" {
+		return s
+	}
+	if r.names[t] {
+		return t
+	}
+	if c, ok := r.aliases[t]; ok {
+		return c
+	}
+	for n := range r.names {
+		if strings.EqualFold(n, t) {
+			return n
+		}
+	}
+	for a, c := range r.aliases {
+		if strings.EqualFold(a, t) {
+			return c
+		}
+	}
+	return t
 }
 
 type packet struct {
@@ -54,6 +103,8 @@ type SwitchNet struct {
 	hold    map[Addr]bool
 	held    map[Addr][]heldPacket
 	heldCnt map[Addr]*atomic.Int64
+	// res: the spellings under which addresses can be dialed (see resolver)
+	res resolver
 }
 
 type heldPacket struct {
@@ -68,7 +119,28 @@ func NewSwitchNet() *SwitchNet {
 		via:  map[*Endpoint]map[Addr]Addr{},
 		sent: map[Addr]*atomic.Int64{}, dropped: map[Addr]*atomic.Int64{},
 		hold: map[Addr]bool{}, held: map[Addr][]heldPacket{}, heldCnt: map[Addr]*atomic.Int64{},
+		res: newResolver(),
 	}
+}
+
+// Alias registers a host name for the canonical address (see resolver).
+func (n *SwitchNet) Alias(alias, canonical string) {
+	n.mu.Lock()
+	n.res.names[canonical] = true
+	n.res.aliases[alias] = canonical
+	n.mu.Unlock()
+}
+
+// ParseAddr is the address parser of the transports on this network: it accepts
+// every spelling of an address and returns the canonical one.
+func (n *SwitchNet) ParseAddr(s string) (net.Addr, error) {
+	if s == "" {
+		return nil, errors.New("empty switch address")
+	}
+	n.mu.Lock()
+	c := n.res.resolve(s)
+	n.mu.Unlock()
+	return Addr(c), nil
 }
 
 // Endpoint is a net.PacketConn on a SwitchNet.
@@ -92,6 +164,7 @@ func (n *SwitchNet) NewEndpoint(home string) *Endpoint {
 	e := &Endpoint{n: n, home: Addr(home), in: make(chan packet, 4096), closed: make(chan struct{}), dlChange: make(chan struct{})}
 	n.mu.Lock()
 	n.homes[e.home] = e
+	n.res.names[home] = true
 	n.mu.Unlock()
 	return e
 }
@@ -99,6 +172,7 @@ func (n *SwitchNet) NewEndpoint(home string) *Endpoint {
 // Serve (re)binds the service address to the endpoint; nil = nobody serves it.
 func (n *SwitchNet) Serve(addr string, e *Endpoint) {
 	n.mu.Lock()
+	n.res.names[addr] = true
 	if e == nil {
 		delete(n.table, Addr(addr))
 	} else {
